@@ -158,3 +158,13 @@ def register(reg):
         "history com -> express_in -> com / tetrahedra_points.",
         "Trusted: Qhull hull volume and facets; analytic oracles. Face pairing merges exactly equal vertices only.",
         "DESIGN.md section 4 C17")
+
+    reg("C15",
+        "runtime geometric monitor on ContactSurface / intersect_tetrahedron_pair outputs with own barycentric coordinates, plane residuals, convexity and area recomputation; role-changing query histories; single tetrahedron pairs in both argument orders with exactly computed transforms",
+        "400 (quick) / 6 000 (thorough) body pairs from the six factories (general poses, axis-aligned lattice stacking, "
+        "certified disjoint) with Young's moduli over [1e-2,1e2]: ~50 000 polygons per quick run judged (vertices on the plane "
+        "and inside both tetrahedra, convex, area and force consistent), five further queries per scene with a third body in "
+        "changing roles; 8 000 single tetrahedron pairs (random, dyadic, 'pressed flat surfaces' with exactly parallel faces and "
+        "general linear potentials) in both orders. Known: K9 ('same tetrahedron' shortcut point polygons).",
+        "Trusted: numpy linear solves for barycentric coordinates. Blind spot: point polygons of the `same` shortcut (K9).",
+        "DESIGN.md section 4 C15")
